@@ -28,6 +28,7 @@ import (
 	"path"
 	"path/filepath"
 	"strings"
+	"testing"
 
 	"github.com/bufbuild/buf/private/bufpkg/bufimage"
 	imagev1 "github.com/bufbuild/buf/private/gen/proto/go/buf/alpha/image/v1"
@@ -48,6 +49,8 @@ type CLISel struct {
 	Wrap []string `json:"wrap,omitempty"`
 	// Strip: #strip_components=N (archives only, N <= len(Wrap)); what is left of Wrap is the #subdir
 	Strip int `json:"strip,omitempty"`
+	// NoConfig: a single unnamed module whose files sit directly at the input root, without any buf.yaml
+	NoConfig bool `json:"no_config,omitempty"`
 	// Paths / Excludes: --path / --exclude-path values, relative to the workspace root
 	Paths    []string `json:"paths,omitempty"`
 	Excludes []string `json:"excludes,omitempty"`
@@ -58,6 +61,14 @@ func (s *CLISel) subDir() string {
 		return ""
 	}
 	return path.Join(s.Wrap[s.Strip:]...)
+}
+
+// wsDir is the directory of a module relative to the workspace root.
+func (s *CLISel) wsDir(m CaseModule) string {
+	if s.NoConfig {
+		return "."
+	}
+	return m.Dir
 }
 
 func (s *CLISel) group() string {
@@ -92,7 +103,7 @@ func refTargetsCLI(c *Case) map[string]bool {
 	t := map[string]bool{}
 	for _, m := range c.Modules {
 		for p := range c.Files[m.Dir] {
-			full := path.Join(m.Dir, p)
+			full := path.Join(c.CLI.wsDir(m), p)
 			inc := len(c.CLI.Paths) == 0
 			for _, tp := range c.CLI.Paths {
 				if under(tp, full) {
@@ -112,12 +123,14 @@ func refTargetsCLI(c *Case) map[string]bool {
 	return t
 }
 
+const keyExcludeAbove = "exclude-path-above-module-dir-ignored"
+
 // excludesAboveModules returns the --exclude-path values that are directories strictly above a module directory.
 func excludesAboveModules(c *Case) []string {
 	var out []string
 	for _, e := range c.CLI.Excludes {
 		for _, m := range c.Modules {
-			if e != m.Dir && under(e, m.Dir) {
+			if d := c.CLI.wsDir(m); d != "." && e != d && under(e, d) {
 				out = append(out, e)
 				break
 			}
@@ -152,6 +165,11 @@ func genCLISel(t *rapid.T, c *Case) {
 			s.Strip = protogen.FairIntn(t, "nstrip", 1, n)
 		}
 	}
+	if len(c.Modules) == 1 && protogen.FairPct(t, "noconfig", 40) {
+		s.NoConfig = true
+		c.Modules[0].Name = "" // a module name needs a buf.yaml
+	}
+	c.CLI = s
 	// candidates: files and directories inside modules. Preconditions of the documented interface: a module
 	// directory itself is rejected by both flags ("module ... was specified with --path, specify this module
 	// path directly as an input"), and a --path that is a directory above module directories is rejected
@@ -159,13 +177,15 @@ func genCLISel(t *rapid.T, c *Case) {
 	set := map[string]bool{}
 	var modDirs []string
 	for _, m := range c.Modules {
-		modDirs = append(modDirs, m.Dir+"/x")
+		if !s.NoConfig {
+			modDirs = append(modDirs, m.Dir+"/x")
+		}
 		paths := protogen.SortedPaths(c.Files[m.Dir])
 		for _, p := range paths {
-			set[path.Join(m.Dir, p)] = true
+			set[path.Join(s.wsDir(m), p)] = true
 		}
 		for _, d := range dirsOf(paths) {
-			set[path.Join(m.Dir, d)] = true
+			set[path.Join(s.wsDir(m), d)] = true
 		}
 	}
 	cands := protogen.SortedKeys(set)
@@ -229,10 +249,12 @@ func workspaceEntries(c *Case) map[string]string {
 			fmt.Fprintf(&y, "    name: %s\n", m.Name)
 		}
 		for p, txt := range c.Files[m.Dir] {
-			out[path.Join(m.Dir, p)] = txt
+			out[path.Join(c.CLI.wsDir(m), p)] = txt
 		}
 	}
-	out["buf.yaml"] = y.String()
+	if !c.CLI.NoConfig {
+		out["buf.yaml"] = y.String()
+	}
 	return out
 }
 
@@ -426,6 +448,9 @@ func classifyCLI(r *evid.Recorder, c *Case) {
 	r.Class("cli-kind:" + s.Kind)
 	r.Class("cli-sel:" + s.mode())
 	r.Class("cli-input:" + s.group())
+	if s.NoConfig {
+		r.Class("cli-no-buf-yaml")
+	}
 	if s.Strip > 0 {
 		r.Class("cli-strip-components")
 	}
@@ -433,6 +458,9 @@ func classifyCLI(r *evid.Recorder, c *Case) {
 	all := 0
 	for _, files := range c.Files {
 		all += len(files)
+	}
+	if len(excludesAboveModules(c)) > 0 {
+		r.Class("cli-shape:exclude-above-module-dir")
 	}
 	if n := len(refTargetsCLI(c)); n < all {
 		r.Class("cli-sel-effective:" + s.mode())
@@ -444,4 +472,27 @@ func cliCanon(c *Case) string {
 		return ""
 	}
 	return fmt.Sprintf("%+v", *c.CLI)
+}
+
+// TestExcludeAboveModuleDir is the directed regression of the open finding
+// exclude-path-above-module-dir-ignored (minimal input; runs in one shard of every run).
+func TestExcludeAboveModuleDir(t *testing.T) {
+	r := evid.R()
+	if !r.Mine(0) {
+		t.Skip("runs in shard 0")
+	}
+	defer r.Begin(t)()
+	a := "syntax = \"proto3\";\npackage a;\nmessage A {}\n"
+	b := "syntax = \"proto3\";\npackage b;\nmessage B {}\n"
+	for _, kind := range []string{"dir", "zip"} {
+		c := &Case{
+			Modules:  []CaseModule{{Dir: "src/a"}, {Dir: "other"}},
+			Files:    map[string]map[string]string{"src/a": {"a.proto": a}, "other": {"b.proto": b}},
+			Backend:  "cli",
+			CLI:      &CLISel{Kind: kind, Excludes: []string{"src"}},
+			Imports:  map[string][]string{"a.proto": {}, "b.proto": {}},
+			Packages: map[string]string{"a.proto": "a", "b.proto": "b"},
+		}
+		runSuccess(context.Background(), t, r, c)
+	}
 }
